@@ -14,6 +14,31 @@ CHECKS = {
   "Every generated case is built by the real packagers and every payload entry (kind, bytes, stored mode field, owner, group, file mtime, link target) is compared with a reference plan derived from the documentation; formats are also compared with each other. Held on the K cases of the run; no claim beyond the generated space.",
   "Trusts the harness decoders (raw tar walker, ar, gzip splitter, rpm header+cpio parser, klauspost zstd / ulikunitz xz decoders) and the generator's by-construction knowledge of glob match sets. Corners listed under 'not explored' in DESIGN.md section 4/C01 are outside the claim.",
   "4/C01"),
+ "C02": ("exploration",
+  "runtime monitoring: field-by-field oracle over decoded control metadata (exhaustive GOARCH x format matrix parsed from the documentation, all 32 optional version-component combinations, generated metadata)",
+  "Every metadata field decoded from control / rpm header / .PKGINFO of really built packages is compared with the configured value; the architecture matrix and the version-component combinations are enumerated completely, the rest is generated. dpkg-deb -f cross-reads deb fields.",
+  "Trusts the harness deb822 / rpm header / PKGINFO parsers and the per-format field map written from the documentation. Relations are demanded only where the format has a field for them; archlinux pkgver cannot carry metadata (tolerated).",
+  "4/C02"),
+ "C03": ("exploration",
+  "runtime monitoring: recomputation oracle - every stored digest, checksum and size is recomputed by the harness from the decoded shipped bytes (incl. rebuild after in-place source change)",
+  "All digests/sizes a package states about itself are recomputed without nfpm code from the bytes actually shipped, over generated payloads biased to block-size boundaries and all compressions, including a second build in the same process after sources changed.",
+  "Trusts the harness decoders and Go's crypto hashes. rpm sig tag 1007 accepted as cpio length or sum of file sizes; md5sums names with or without './'.",
+  "4/C03"),
+ "C04": ("exploration",
+  "runtime monitoring: structural monitors over raw archive bytes (raw tar block walker + archive/tar reader, ar, gzip member splitter, rpm lead/header/cpio, mtree) plus dpkg-deb and xz as independent readers",
+  "Every structural rule in the statement is asserted on every generated output (signed and unsigned, all compressions, empty to multi-MiB payloads, apk 512-byte boundary cases); deb files are additionally fed to dpkg-deb -I/-c and xz/lzma payloads to the xz CLI.",
+  "rpm, cpio, zstd, bsdtar, apk, pacman CLIs are not installed: those formats are read only by harness-owned parsers and the decoder halves of the compression libraries.",
+  "4/C04"),
+ "C08": ("exploration",
+  "runtime monitoring: exhaustive (entry type x packager tag x format) matrix plus generated mixed lists; conffiles / rpm FILEFLAGS / archlinux backup decoded from built packages vs declared types",
+  "The 12x6x5 matrix is enumerated completely (each cell built and decoded), config globs expanding to 1..20 files and generated mixed lists are added; registration of configuration and special files is compared with the declaration in both directions.",
+  "Trusts the harness decoders and the rpm FILEFLAGS constants taken from rpm's rpmfiles.h.",
+  "4/C08"),
+ "C09": ("exploration",
+  "runtime monitoring: exhaustive enumeration of script-slot subsets per format with unique per-slot tokens; slots decoded from built packages compared byte-for-byte with the files written",
+  "All 400 subsets of configurable slots (deb 2^7, rpm 2^7, apk 2^6, archlinux 2^6, ipk 2^4) are built for several body variants (binary, CRLF, no trailing newline, empty, 1 MiB in thorough); a slot must be populated iff configured, with exactly the configured bytes and mode.",
+  "rpm bodies are NUL-free (header strings cannot carry NUL); an empty rpm scriptlet may be absent.",
+  "4/C09"),
 }
 
 NOT_YET = "check not yet registered in this session (under construction)"
